@@ -42,6 +42,25 @@ def run(rep, tier, seed, replay):
                     rep.violation("correspondence", "has_semantic_literals(): structural definition", {"expr": exprs[k]}, impl=i.get("sem"), model=msem[k])
         if iv == "always" or any(c in exprs[k] for c in "{<") or "**" in exprs[k]:
             rep.distinct.add(exprs[k])
+    # ---- direct probes through the public API (is_match is an UNANCHORED search relying on the anchors of the program, which the
+    # automaton above reads as a whole-haystack match): a path that does not begin with a separator and merely CONTAINS a line
+    # the glob matches must not match a glob that always has a root
+    if rooted:
+        words = h.ask(["WD %s 3" % hexs(P.impl[k]["pattern"]) for k in rooted])
+        probes, owner = [], []
+        for k, wl in zip(rooted, words):
+            ws = [unhex(x) for x in wl.split()[1:]] if wl.startswith("words") else []
+            for w in ws[:2]:
+                for cand in ("x\n" + w, "x\r\n" + w, "x" + w + "\n" + w):
+                    if not cand.startswith("/"):
+                        probes.append("M %s %s" % (P.hx[k], hexs(cand)))
+                        owner.append((k, cand))
+        flagged = set()
+        for (k, cand), line in zip(owner, h.ask(probes)):
+            if line.startswith("match") and k not in flagged:
+                flagged.add(k)
+                rep.violation("oracle", "root_sound: a glob reports has_root = Always but matches a path that does not begin with a separator", {"expr": exprs[k], "path": cand}, impl="match")
+        rep.stats["direct-probes"] += len(probes)
     # ---- the same pattern obtained another way (into_owned, FromStr, any of one): has_root judged like the glob's;
     # a glob route (into_owned, FromStr) is a glob and never reports Sometimes
     if replay is None:
